@@ -21,6 +21,9 @@ import (
 
 const vschedPath = "github.com/goptics/varmq/internal/zzverif/vsched"
 
+var racyFields = map[string]bool{}
+var racyPoints []string
+
 type edit struct {
 	off   int
 	text  string
@@ -188,7 +191,94 @@ type stmtCtx struct {
 
 func (in *instrumenter) stmts(list []ast.Stmt) {
 	for _, s := range list {
+		in.racyPoint(s)
 		in.stmt(s, true)
+	}
+}
+
+// racyPoint inserts a scheduling point before a simple statement that reads or writes a field the model
+// found contended (so that a replay can park a goroutine right before the plain access).
+func (in *instrumenter) racyPoint(s ast.Stmt) {
+	if len(racyFields) == 0 {
+		return
+	}
+	switch s.(type) {
+	case *ast.AssignStmt, *ast.ExprStmt, *ast.ReturnStmt, *ast.IncDecStmt, *ast.IfStmt:
+	default:
+		return
+	}
+	isRacy := func(e ast.Expr) bool {
+		sel, ok := e.(*ast.SelectorExpr)
+		if !ok {
+			return false
+		}
+		selx, ok := in.info.Selections[sel]
+		if !ok || selx.Kind() != types.FieldVal {
+			return false
+		}
+		rt := selx.Recv()
+		if p, ok := rt.Underlying().(*types.Pointer); ok {
+			rt = p.Elem()
+		}
+		// the field may be promoted through embedded structs: use the field's own struct
+		name := ""
+		if n, ok := types.Unalias(rt).(*types.Named); ok {
+			name = n.Obj().Name()
+		}
+		if racyFields[name+"."+sel.Sel.Name] {
+			return true
+		}
+		// promoted: look for any Type.field with this field name whose type embeds...
+		for k := range racyFields {
+			if strings.HasSuffix(k, "."+sel.Sel.Name) && len(selx.Index()) > 1 {
+				return true
+			}
+		}
+		return false
+	}
+	var target ast.Node = s
+	if ifs, ok := s.(*ast.IfStmt); ok {
+		if ifs.Init != nil {
+			return
+		}
+		target = ifs.Cond
+	}
+	store, load := false, false
+	if as, ok := s.(*ast.AssignStmt); ok {
+		for _, l := range as.Lhs {
+			if isRacy(l) {
+				store = true
+			}
+		}
+		for _, r := range as.Rhs {
+			ast.Inspect(r, func(n ast.Node) bool {
+				if _, ok := n.(*ast.FuncLit); ok {
+					return false
+				}
+				if e, ok := n.(ast.Expr); ok && isRacy(e) {
+					load = true
+				}
+				return true
+			})
+		}
+	} else {
+		ast.Inspect(target, func(n ast.Node) bool {
+			if _, ok := n.(*ast.FuncLit); ok {
+				return false
+			}
+			if e, ok := n.(ast.Expr); ok && isRacy(e) {
+				load = true
+			}
+			return true
+		})
+	}
+	if load {
+		in.ins(s.Pos(), in.point("load", s.Pos()))
+		racyPoints = append(racyPoints, in.posStr(s.Pos())+" load")
+	}
+	if store {
+		in.ins(s.Pos(), in.point("store", s.Pos()))
+		racyPoints = append(racyPoints, in.posStr(s.Pos())+" store")
 	}
 }
 
@@ -542,6 +632,7 @@ func instrumentMain(repo, pkgDir, overlayDir, outDir string) {
 	}
 	b, _ := json.MarshalIndent(m, "", " ")
 	os.WriteFile(filepath.Join(outDir, "files.json"), b, 0644)
+	os.WriteFile(filepath.Join(outDir, "points.txt"), []byte(strings.Join(racyPoints, "\n")), 0644)
 	if err != nil {
 		os.Exit(3)
 	}
